@@ -1,6 +1,7 @@
 // th-harness: executes case lines against the real tiny_http built from /repo's working tree.
 // Reads case lines on stdin (or from the file given as 2nd argument), writes one observation line
 // per case on stdout. The first field of a case line selects the executor.
+mod cv;
 mod rp;
 mod util;
 
@@ -9,6 +10,8 @@ use std::io::{BufRead, Write};
 fn main() {
     // silence the default panic message: panics are observations here
     std::panic::set_hook(Box::new(|_| {}));
+    raise_fd_limit();
+    let mut servers = cv::Servers::new();
     let stdin = std::io::stdin();
     let stdout = std::io::stdout();
     let mut out = std::io::BufWriter::new(stdout.lock());
@@ -21,8 +24,20 @@ fn main() {
         }
         let obs = match f[0] {
             "rp" => rp::run_case(&f),
+            "cv" => cv::run_case(&mut servers, &f),
             other => format!("UNKNOWN-EXECUTOR {}", other),
         };
         writeln!(out, "{}", obs).unwrap();
+    }
+}
+
+fn raise_fd_limit() {
+    // EMFILE kills the accept loop of tiny-http for good (DESIGN 7): never get near the limit
+    unsafe {
+        let mut r = libc::rlimit { rlim_cur: 0, rlim_max: 0 };
+        if libc::getrlimit(libc::RLIMIT_NOFILE, &mut r) == 0 {
+            r.rlim_cur = r.rlim_max;
+            libc::setrlimit(libc::RLIMIT_NOFILE, &r);
+        }
     }
 }
